@@ -118,7 +118,7 @@ def run(ctx, report: Report) -> None:
     report.analysed['regex_variants'] = len(analysed)
 
     # ---- R2 ------------------------------------------------------------------------------------------
-    r2 = report.rule('C07-R2', 'token patterns consume at least one character and the token loop advances', floor=12)
+    r2 = report.rule('C07-R2', 'token patterns consume at least one character and the token loop advances', floor=10)
     tokens = [r for r in inv.regexes if r.kind in ('token', 'special-token')]
     for r in tokens:
         s = rx.System()
@@ -161,7 +161,7 @@ def run(ctx, report: Report) -> None:
                 r2.note(f'{mod.where(call)}: matcher {unparse(recv)} of the token loop is not recognisably drawn from css_tokens')
 
     # ---- R3 ------------------------------------------------------------------------------------------
-    r3 = report.rule('C07-R3', 'every regex application resolves to an inventoried regex', floor=20)
+    r3 = report.rule('C07-R3', 'every regex application resolves to an inventoried regex', floor=12)
     for where, func, text in inv.unresolved:
         r3.violation(f'{func} {text}', where, f're.compile of a pattern that is not a folded constant or an escaped '
                                               f'template: {text}')
